@@ -346,6 +346,7 @@ fn controller(prog: Arc<Program>) {
 
         facts().stage = Some(Stage::Drain(pi));
         w().faults_stopped = true;
+        kernel::faults_off(true);
         let keep = handles_used_after(&prog, pi);
         let mut rounds = 0;
         let mut last_points: u64 = 0;
@@ -382,6 +383,7 @@ fn controller(prog: Arc<Program>) {
             kernel::await_quiescence();
         }
         w().faults_stopped = false;
+        kernel::faults_off(false);
         note_states();
         if !all_callers_done(&names) {
             hung = true;
